@@ -492,6 +492,18 @@ pub fn warmup(rng: &mut Rng, srv: &mut Srv, t: &mut Trace, depth: u64) {
                     let key = rng.pick(&KEYS).to_string();
                     let b = srv.peer.encode(cmd("play", 0.0, Amf0Value::Null, vec![s(&key)]), 0, sid);
                     t.emit(&srv.input(json!({"m":"play","msid":sid,"txn":txn_json(0.0),"args":"ok","key":key.as_bytes().to_vec()}), &b));
+                    // every other one of these requests is accepted and gets media and metadata (a session may serve any number
+                    // of streams over its lifetime)
+                    if i % 8 == 0 {
+                        if let Some(&id) = srv.reqs.last() {
+                            t.emit(&srv.call(json!({"m":"accept","id":id}), &mut |s| s.accept_request(id).map_err(|e| format!("{:?}", e))));
+                            let d = vec![7u8, (i % 251) as u8, 9];
+                            let dd = Bytes::from(d.clone());
+                            t.emit(&srv.call(json!({"m":"send_video","sid":sid,"ts":w(40),"drop":false,"data":segs(&d)}), &mut |s| s.send_video_data(sid, dd.clone(), RtmpTimestamp::new(40), false).map(|p| vec![ServerSessionResult::OutboundResponse(p)]).map_err(|e| format!("{:?}", e))));
+                            let dd = Bytes::from(d.clone());
+                            t.emit(&srv.call(json!({"m":"send_audio","sid":sid,"ts":w(41),"drop":false,"data":segs(&d)}), &mut |s| s.send_audio_data(sid, dd.clone(), RtmpTimestamp::new(41), false).map(|p| vec![ServerSessionResult::OutboundResponse(p)]).map_err(|e| format!("{:?}", e))));
+                        }
+                    }
                 }
             }
         }
